@@ -1218,6 +1218,202 @@ def run_scen_jobs_with_peer(jobs, wd):
 
 
 # ---------------------------------------------------------------------------------------------
+# C15: routing (TraceC15.tla)
+# ---------------------------------------------------------------------------------------------
+RECV_MARK = "<script>mark('recv', _name, _event.name, _event.type, _event.sendid, _event.origin, _event.origintype, _event.invokeid, _event.data)</script>"
+PAYLOADS = {
+    "none": ("", "null"),
+    "params": ('<param name="p1" expr="v"/><param name="p2" expr="\'two\'"/>', "{p1:7,p2:two}"),
+    "namelist": ("NAMELIST", "{v:7}"),
+    "contentexpr": ('<content expr="v + 1"/>', "8"),
+    "contenttext": ("<content>hello world</content>", "hello world"),
+}
+
+
+def c15_node(name, dm, cases, peers, child_xml=None, forward_init=False):
+    """cases: list of (K, form, arg, payload); peers: names whose session id this node may need"""
+    data = '<data id="v" expr="7"/><data id="gid" expr="0"/>' + "".join('<data id="peer%s" expr="0"/>' % p for p in peers)
+    init = "".join('<assign location="peer%s" expr="_event.data.peer%s"/>' % (p, p) for p in peers)
+    if forward_init:
+        init += '<send target="#_kid" event="init">' + "".join('<param name="peer%s" expr="_event.data.peer%s"/>' % (p, p) for p in peers) + "</send>"
+    ts = ['<transition event="init">%s</transition>' % init]
+    for (k, form, arg, payload) in cases:
+        body, _ = PAYLOADS[payload]
+        attrs = ' event="req.%s.%d" id="sid%s%d"' % (name, k, name, k)
+        if body == "NAMELIST":
+            attrs += ' namelist="v"'
+            body = ""
+        if form == "internal":
+            attrs += ' target="#_internal"'
+        elif form == "sid":
+            attrs += " targetexpr=\"'#_scxml_' + peer%s\"" % arg
+        elif form == "parent":
+            attrs += ' target="#_parent"'
+        elif form == "invokeid":
+            attrs += ' target="#_%s"' % arg
+        ts.append('<transition event="fire.%d"><send%s>%s</send></transition>' % (k, attrs, body))
+    if forward_init:
+        ts.append('<transition event="kidfire"><send target="#_kid" eventexpr="\'fire.\' + _event.data.k"/></transition>')
+    ts.append('<transition event="genid"><send event="gen.x" target="#_internal" idlocation="gid"/><script>mark(\'gid\', gid)</script></transition>')
+    reply = ('<send eventexpr="\'reply.\' + _event.name" targetexpr="_event.origin" typeexpr="_event.origintype"/>')
+    ts.append('<transition event="req.*" cond="_event.type == \'external\'">%s%s</transition>' % (RECV_MARK, reply))
+    ts.append('<transition event="*">%s</transition>' % RECV_MARK)
+    inv = ""
+    if child_xml:
+        from xml.sax.saxutils import escape
+        inv = '<invoke type="scxml" id="kid"><content>%s</content></invoke>' % child_xml
+    return ('<scxml xmlns="http://www.w3.org/2005/07/scxml" version="1.0" datamodel="%s" name="%s"><datamodel>%s</datamodel>'
+            '<state id="s">%s%s</state></scxml>' % (dm, name, data, inv, "".join(ts)))
+
+
+@check("C15")
+def c15(tier, seed):
+    t0 = time.time()
+    wd = vlib.workdir("C15")
+    V = vlib.Verdicts("C15")
+    vlib.build_harness()
+    rng = random.Random(seed)
+    pls = list(PAYLOADS)
+    jobs = []
+    meta = {}
+    topologies = []
+    for entry in ("start", "execute"):
+        # two siblings
+        topologies.append(("siblings-" + entry, entry, False))
+        # parent (entry) invoking a child, plus a sibling
+        topologies.append(("family-" + entry, entry, True))
+    dms = ["rfsm-expression"] if tier == "quick" else ["rfsm-expression", "ecmascript"]
+    for dm in dms:
+        for (tname, entry, family_) in topologies:
+            for rep in range(1 if tier == "quick" else 3):
+                k = [0]
+
+                def cases(node, forms):
+                    out = []
+                    for (form, arg) in forms:
+                        for pl in (pls if tier != "quick" else rng.sample(pls, 3)):
+                            k[0] += 1
+                            out.append((k[0], form, arg, pl))
+                    return out
+                if not family_:
+                    ca = cases("A", [("internal", ""), ("self", ""), ("sid", "B")])
+                    cb = cases("B", [("internal", ""), ("self", ""), ("sid", "A")])
+                    sessions = [{"name": "A", "xml": c15_node("A", dm, ca, ["B"]), "entry": entry},
+                                {"name": "B", "xml": c15_node("B", dm, cb, ["A"]), "entry": entry}]
+                    topo = [{"name": "A", "parent": "", "invokeid": ""}, {"name": "B", "parent": "", "invokeid": ""}]
+                    allcases = [("A", c) for c in ca] + [("B", c) for c in cb]
+                    init_to = ["A", "B"]
+                else:
+                    cc = cases("C", [("internal", ""), ("self", ""), ("parent", ""), ("sid", "B"), ("sid", "P")])
+                    cp = cases("P", [("internal", ""), ("self", ""), ("invokeid", "kid"), ("sid", "B")])
+                    cb = cases("B", [("self", ""), ("sid", "P")])
+                    child = c15_node("C", dm, cc, ["B", "P"])
+                    sessions = [{"name": "P", "xml": c15_node("P", dm, cp, ["B", "P"], child_xml=child, forward_init=True), "entry": entry},
+                                {"name": "B", "xml": c15_node("B", dm, cb, ["P", "B"]), "entry": "start"}]
+                    topo = [{"name": "P", "parent": "", "invokeid": ""}, {"name": "B", "parent": "", "invokeid": ""},
+                            {"name": "C", "parent": "P", "invokeid": "kid"}]
+                    allcases = [("P", c) for c in cp] + [("B", c) for c in cb] + [("C", c) for c in cc]
+                    init_to = ["P", "B"]
+                steps = [{"start": s["name"]} for s in sessions] + [{"settle": 40}]
+                initev = {"name": "init", "params": {"peerA": "$sid:A", "peerB": "$sid:B", "peerP": "$sid:P"}}
+                initev["params"] = {k2: v2 for k2, v2 in initev["params"].items() if any(s["name"] == k2[4:] for s in sessions)}
+                for n in init_to:
+                    steps.append({"send": n, "event": initev})
+                steps.append({"settle": 40})
+                order = list(allcases)
+                rng.shuffle(order)
+                for (node, (kk, form, arg, pl)) in order:
+                    if node == "C":
+                        # the child is driven through its parent: P forwards fire events addressed to the kid
+                        steps.append({"send": "P", "event": {"name": "kidfire", "params": {"k": kk}}})
+                    else:
+                        steps.append({"send": node, "event": "fire.%d" % kk})
+                    steps.append({"settle": 15})
+                for n in init_to:
+                    steps += [{"send": n, "event": "genid"}, {"send": n, "event": "genid"}]
+                steps.append({"settle": 40})
+                jid = len(jobs) + 1
+                job = {"id": jid, "sessions": sessions, "steps": steps, "timeout_ms": 60000}
+                if dm == "ecmascript":
+                    job["options"] = {"ecma:strict": ""}
+                jobs.append(job)
+                meta[jid] = (tname, dm, topo, allcases)
+    # concurrent start of many sessions: ids must be unique
+    many = [{"name": "S%d" % i, "xml": c15_node("S%d" % i, "rfsm-expression", [], [])} for i in range(16)]
+    jid = len(jobs) + 1
+    jobs.append({"id": jid, "sessions": many, "timeout_ms": 60000,
+                 "steps": [{"threads": [[{"start": "S%d" % i}, {"send": "S%d" % i, "event": "genid"}, {"send": "S%d" % i, "event": "genid"}] for i in range(16)]},
+                           {"settle": 60}]})
+    meta[jid] = ("concurrent-start", "rfsm-expression", [{"name": "S%d" % i, "parent": "", "invokeid": ""} for i in range(16)], [])
+    res = {}
+    for j in jobs:       # one process per scenario: generated ids are process-global counters
+        res.update(run_scen_jobs([j], wd, name="scen-%d" % j["id"], threads=1))
+    scens = []
+    for j in jobs:
+        r = res[j["id"]]
+        tname, dm, topo, allcases = meta[j["id"]]
+        if r.get("errors"):
+            raise ToolError("C15 scenario %s: %s" % (tname, r["errors"]))
+        sids = {n[0]: n[2] for n in r["names"]}
+        recvs = []
+        genids = []
+        for sl in r["sessions"]:
+            for x in sl["recs"]:
+                if x[0] == "M" and x[1] == "recv":
+                    a = [tracelib.val_str(y) for y in x[2]]
+                    a = ["null" if y == "NONE" else y for y in a]
+                    recvs.append({"session": a[0], "name": a[1], "qtype": "internal" if a[2] == "internal" else "external",
+                                  "sendid": a[3], "origin": a[4], "origintype": a[5], "invokeid": a[6], "data": a[7]})
+                    if a[0] not in sids and sl.get("sid") is not None:
+                        sids[a[0]] = sl["sid"]
+                elif x[0] == "M" and x[1] == "gid":
+                    genids.append(tracelib.val_str(x[2][0]))
+        sends = []
+        for (node, (kk, form, arg, pl)) in allcases:
+            sends.append({"sender": node, "form": form, "arg": arg, "name": "req.%s.%d" % (node, kk), "sendid": "sid%s%d" % (node, kk),
+                          "data": PAYLOADS[pl][1], "reply": form != "internal"})
+        sessions = [{"name": t["name"], "sid": sids.get(t["name"], -len(sessions_) - 1), "parent": t["parent"], "invokeid": t["invokeid"]}
+                    for sessions_ in [[]] for t in topo]
+        for i2, s_ in enumerate(sessions):
+            if s_["sid"] < 0:
+                s_["sid"] = -(i2 + 1)
+        scens.append({"sessions": sessions, "sends": sends, "recvs": recvs, "genids": genids, "jid": j["id"],
+                      "panic": bool(r.get("panics") or r.get("other_panics")), "stall": bool(r.get("stalls"))})
+    with open(os.path.join(wd, "traces.ndjson"), "w") as f:
+        for sc in scens:
+            f.write(json.dumps({k2: sc[k2] for k2 in ("sessions", "sends", "recvs", "genids")}) + "\n")
+    tv = vlib.run_tlc("TraceC15", "TraceC15.cfg", wd, env={"TRACES": "traces.ndjson"}, timeout=1500)
+    acc = len(vlib.tlc_tuples(tv["text"], "ACCEPT"))
+    for t in vlib.tlc_tuples(tv["text"], "REJECT"):
+        v = vlib.parse_tla_value(t)
+        sc = scens[v[1] - 1]
+        tname, dm, topo, allcases = meta[sc["jid"]]
+        snd = sc["sends"][v[2] - 1] if v[2] else None
+        key = "%s:%s:%s" % (v[3], tname, ("%s->%s" % (snd["sender"], snd["form"] + (":" + snd["arg"] if snd["arg"] else ""))) if snd else "")
+        V.report(key, "%s in %s (%s): %s" % (v[3], tname, dm, snd), {"class": v[3], "topology": topo, "send": snd,
+                 "received_with_that_name": [x for x in sc["recvs"] if snd and x["name"] in (snd["name"], "reply." + snd["name"])],
+                 "genids": sc["genids"]})
+    tv["text"] = ""
+    for sc in scens:
+        if sc["panic"] or sc["stall"]:
+            V.report("session-%s:%s" % ("panic" if sc["panic"] else "stall", meta[sc["jid"]][0]), "scenario %s" % meta[sc["jid"]][0],
+                     {"result": {k2: res[sc["jid"]].get(k2) for k2 in ("panics", "other_panics", "stalls")}})
+    if acc == 0 and not V.violations:
+        raise ToolError("C15: nothing accepted")
+    rc = V.finish()
+    cov = {"states": tv["distinct"], "transitions": tv["states"], "traces_validated_against_impl": acc,
+           "samples": [{"topology": meta[scens[0]["jid"]][0], "sends": scens[0]["sends"][:3], "recvs": scens[0]["recvs"][:3]}],
+           "evaluations": sum(len(sc["sends"]) for sc in scens), "distinct_nontrivial": sum(1 for sc in scens for sd in sc["sends"] if sd["form"] not in ("internal", "self")),
+           "rule": "topologies siblings / parent+child+sibling, each started through start_fsm and through FsmExecutor::execute; every "
+                   "session sends through every applicable target form with every payload kind; receivers mark all _event fields and "
+                   "reply to _event.origin; 16 sessions started concurrently for id uniqueness; validated by TraceC15.tla; "
+                   "non-trivial = sends that cross sessions"}
+    vlib.write_evidence("C15", tier, seed, "model_checking", cov, time.time() - t0, len(V.violations),
+                        ["the sends that were executed are known from the generated documents; receptions are what content saw in _event"])
+    return rc
+
+
+# ---------------------------------------------------------------------------------------------
 # C10 / C11: Expr.tla as generator + oracle, the engine evaluated in `vh expr`
 # ---------------------------------------------------------------------------------------------
 OPERANDS = ["0", "1", "2", "3", "7", "10", "-1", "-4", "2.5", "0.5", "1.0", "-1.5", "'a'", "'b'", "'ab'", "''", "true",
